@@ -21,7 +21,7 @@ MUTANTS = ["short_stream", "filter_ok", "retry_local", "http_empty", "ignore_dec
 ACTIONS = ["FanOut", "Arrive", "LocalOk", "LocalErr", "Collect", "Finish"]   # the eleven reply actions are all instances of Arrive
 MODEL_KINDS = ["transport", "http", "digest", "trunc_hdr", "trunc_term", "trunc_inmsg", "trunc_marker", "trunc_boundary", "trunc_eos", "corrupt"]
 ONE_TABLE = ["concat", "group", "global", "topn", "join", "gdistinct", "tiny", "empty"]
-GARBAGE_VARIANTS = 6
+GARBAGE_VARIANTS = 9
 
 
 # --------------------------------------------------------------------------------------------
@@ -164,8 +164,8 @@ def concrete_fault(kind, kept, tname, shard, rng, light=False):
     elif kind == "trunc_eos":
         f.update(kind="trunc", cls="eos", sel=rng.randrange(8))
     elif kind == "corrupt":
-        # variants 0, 1, 3 make the decoder zero ~2 GB (a foreign body's first bytes read as a length): thorough only
-        f.update(kind="garbage", sel=(rng.choice([2, 4, 5]) if light else rng.randrange(GARBAGE_VARIANTS)))
+        # variants 0-3, 5 make the decoder zero 0.8-2 GB (bytes where a continuation marker should be are read as a length): thorough only, within the budget
+        f.update(kind="garbage", sel=(rng.choice([4, 6, 7, 8]) if light else rng.randrange(GARBAGE_VARIANTS)))
     else:
         raise vlib.ToolError(f"unknown model kind {kind}")
     return f
@@ -272,7 +272,7 @@ def flips_kept_their_rows(kinds, sends):
     """a wrong answer counts as 'garbled' (cell values only) iff every corrupted payload still decoded to the number of
     rows its worker declared: the coordinator could not have noticed; otherwise rows appeared or vanished ('short')"""
     fl = [s for s in sends if "decoded_rows" in s]
-    return "flip" in kinds and bool(fl) and all(s.get("decoded_rows") is not None and s["decoded_rows"] == s.get("rows") for s in fl)
+    return ("flip" in kinds or "flip_short" in kinds) and bool(fl) and all(s.get("decoded_rows") is not None and s["decoded_rows"] == s.get("rows") for s in fl)
 
 
 def has_local(rec, t):
@@ -292,6 +292,9 @@ def trace_rec(rec):
     else:
         for s in sends:
             k = kind_of_send(plans.get((s["t"], s["i"])), s)
+            if k == "flip" and s.get("decoded_rows") is not None and s["decoded_rows"] < s.get("rows", 0):
+                k = "flip_short"
+                lost += s["rows"] - s["decoded_rows"]
             kinds.append(k)
             if k in ("trunc_marker", "trunc_boundary") or plans.get((s["t"], s["i"]), {}).get("kind") in ("droprows", "emptyok"):
                 lost += s.get("lost", 0)
@@ -323,6 +326,9 @@ def http_trace_rec(rec):
             k = "http"
         elif a == "flip":
             k = "flip"
+            if s.get("decoded_rows") is not None and s["decoded_rows"] < s.get("rows", 0):
+                k = "flip_short"
+                lost += s["rows"] - s["decoded_rows"]
         elif a == "cut":
             cls = s["cls"]
             k = {"hdr": "trunc_hdr", "term": "trunc_term", "empty": "trunc_term", "inmsg": "trunc_inmsg", "eos": "trunc_eos", "boundary0": "trunc_eos", "complete": "ok"}.get(cls)
@@ -505,7 +511,8 @@ def http_cases(rng, quick, cid0, hlay):
         cases.append(c)
 
     for (stmt, n, t, peer), s in sorted(hlay.items()):
-        base = {"t": t, "peer": peer}
+        # w has fewer shards than nodes: which peer is sent it depends on the (ephemeral) address order of the cluster at hand
+        base = {"t": t, "peer": (-1 if t == "w" else peer)}
         for k in ("close", "proxy503"):
             add(stmt, n, [dict(base, kind=k)])
         for st in ([503] if quick else [503, 500, 404, 302]):
@@ -536,7 +543,7 @@ def http_cases(rng, quick, cid0, hlay):
         for ka, kb in (("close", "none"), ("none", "proxy503"), ("cutb", "close"), ("cutb", "cutb"), ("status", "cuth")):
             fs = []
             for (stmt, n, t, peer), kk in ((a, ka), (b, kb)):
-                base = {"t": t, "peer": peer}
+                base = {"t": t, "peer": (-1 if t == "w" else peer)}
                 if kk == "none":
                     continue
                 if kk == "cutb":
@@ -681,7 +688,9 @@ def evidence(ctx, topo, cases, recs, trecs, hrecs, htrecs, nvec, quick):
         if faulted or "err" in t["locals"]:
             nontriv.add(vlib.chash([c["stmt"], c["n"], c["self"], c.get("local"), c.get("local_table"), c["faults"]]))
         for k in faulted:
-            kinds_seen[k] += 1
+            kinds_seen["flip" if k == "flip_short" else k] += 1
+            if k == "flip_short":
+                ctx.add("flips_that_shortened_the_decoded_stream")
         if "err" in t["locals"]:
             kinds_seen["local_err"] += 1
         tab[f"{r.get('shape')}/{'+'.join(sorted(set(faulted))) or 'none'}{'/local_err' if 'err' in t['locals'] else ''}/{t['outcome']}"] += 1
